@@ -8,7 +8,11 @@ pub use crate::uci::send_to_gui;
 pub use crate::utils::out_of_time;
 use crate::zobrist::ZobristHasher;
 use std::cmp::{max, min, Reverse};
+#[cfg(feature = "verif_loom")]
+use crate::sched::{mpsc, thread};
+#[cfg(not(feature = "verif_loom"))]
 use std::sync::mpsc;
+#[cfg(not(feature = "verif_loom"))]
 use std::thread;
 use std::time::{Duration, Instant};
 
@@ -26,7 +30,10 @@ const NEG_INF: i32 = -POS_INF;
 */
 const KILLER_MOVE_SCORE: i32 = 25;
 
+#[cfg(not(feature = "verif_loom"))]
 type BoardSender = std::sync::mpsc::Sender<BoardState>;
+#[cfg(feature = "verif_loom")]
+type BoardSender = crate::sched::mpsc::Sender<BoardState>;
 
 /*
     Capture extension, only search captures from here on to
@@ -270,6 +277,8 @@ pub fn get_best_move(
     time_to_move_ms: u128,
     tx: &BoardSender,
 ) {
+    #[cfg(feature = "verif")]
+    let _verif_guard = crate::verif::search_enter(board, draw_table);
     let mut cur_depth = 1;
     let ply_from_root = 0;
     let mut best_move: Option<BoardState> = None;
@@ -329,6 +338,10 @@ pub fn get_best_move(
                     break;
                 }
             }
+        }
+        #[cfg(feature = "verif")]
+        if crate::verif::stop_after_depth(cur_depth) {
+            return;
         }
         cur_depth += 1;
     }
